@@ -5,10 +5,19 @@ template is described by a small descriptor tree (`N`), from which we build
 (a) the pyglove hyper value, (b) all DNAs that are valid per the documented DNA
 layout, and (c) for every DNA the concrete value the template prescribes.  The
 real `decode` / `encode` / `pg.iter` / `pg.materialize` are compared with it.
+
+Value specs bound to placeholders are modelled as well (`S`, `norm`): a spec
+may normalise the candidate it accepts (built-in converters int->float,
+str<->KeyPath, int<->datetime; defaults of dict / object fields), so the value
+the template prescribes is the normalised candidate and encoding it must give
+back the DNA (drv_typed_roundtrip).
 """
+import datetime
 import itertools
 import json
 import random
+import re
+import warnings
 
 import pyglove as pg
 from pyvc.bounded import Recorder, rng, outcome
@@ -65,6 +74,184 @@ def nt(k, v, p):  # node transform for evolvables (module level => serializable)
 IMPORT = 'from bounded.c13_hyper import A, A2, B, IntSeq, nt\n'
 
 # ---------------------------------------------------------------------------
+# Value-spec descriptors: a small independent model of what a bound value spec
+# prescribes for a (candidate) value -- which values it converts (documented
+# built-in converters int->float, int<->datetime, str<->KeyPath), which
+# defaults it fills in.  `norm(sd, model_value)` is the value the template
+# prescribes after the spec has accepted the candidate.
+# ---------------------------------------------------------------------------
+
+NODEF = ('<no default>',)
+
+
+class S:
+  """Value-spec descriptor."""
+
+  def __init__(self, kind, *args, default=NODEF):
+    self.kind = kind
+    self.args = args
+    self.default = default
+
+
+_S_SCALAR = {
+    'int': 'pg.typing.Int(%s)', 'float': 'pg.typing.Float(%s)',
+    'str': 'pg.typing.Str(%s)', 'bool': 'pg.typing.Bool(%s)',
+    'any': 'pg.typing.Any(%s)',
+}
+
+
+def lit(v):
+  """Source text of a leaf value."""
+  if isinstance(v, pg.KeyPath):
+    return f'pg.KeyPath.parse({str(v)!r})'
+  if isinstance(v, tuple):
+    return '(%s)' % ''.join(lit(x) + ', ' for x in v)
+  return repr(v)
+
+
+def s_src(sd):
+  k = sd.kind
+  if k in _S_SCALAR:
+    return _S_SCALAR[k] % ('' if sd.default is NODEF else f'default={lit(sd.default)}')
+  if k == 'keypath':
+    return 'pg.typing.Object(pg.KeyPath)'
+  if k == 'datetime':
+    return 'pg.typing.Object(datetime.datetime)'
+  if k == 'none':
+    return s_src(sd.args[0]) + '.noneable()'
+  if k == 'union':
+    return 'pg.typing.Union([%s])' % ', '.join(s_src(x) for x in sd.args)
+  if k == 'list':
+    return f'pg.typing.List({s_src(sd.args[0])})'
+  if k == 'tuple':
+    return 'pg.typing.Tuple([%s])' % ', '.join(s_src(x) for x in sd.args)
+  if k == 'dict':
+    return 'pg.typing.Dict([%s])' % ', '.join(
+        f'({key!r}, {s_src(x)})' for key, x in sd.args)
+  if k == 'obj':
+    return f'pg.typing.Object({sd.args[0].__name__})'
+  raise AssertionError(k)
+
+
+def s_pg(sd):
+  env = dict(pg=pg, datetime=datetime)
+  env.update(HOSTS)
+  return eval(s_src(sd), env)  # pylint: disable=eval-used
+
+
+def _tagged(mv):
+  return isinstance(mv, tuple) and bool(mv) and mv[0] in ('O', 'H', 'R')
+
+
+def s_accepts_exactly(sd, mv):
+  """Does the spec take the value as it is (no conversion)?"""
+  k = sd.kind
+  if k == 'any':
+    return True
+  if k == 'none':
+    return mv is None or s_accepts_exactly(sd.args[0], mv)
+  if k == 'union':
+    return any(s_accepts_exactly(x, mv) for x in sd.args)
+  t = {'int': int, 'float': float, 'str': str, 'bool': bool,
+       'keypath': pg.KeyPath, 'datetime': datetime.datetime, 'list': list,
+       'tuple': tuple, 'dict': dict}.get(k)
+  if k == 'obj':
+    return _tagged(mv) and mv[0] == 'O' and issubclass(mv[1], sd.args[0])
+  if _tagged(mv):
+    return False
+  return type(mv) is t  # pylint: disable=unidiomatic-typecheck
+
+
+def norm(sd, mv):
+  """The value a field of spec `sd` holds after it accepted `mv`."""
+  if _tagged(mv):
+    if mv[0] != 'O':
+      return mv                      # placeholders / references stay
+    fields = CLS_FIELDS.get(mv[1])
+    if fields is None:               # classes A, A2, B: nothing is converted
+      return ('O', mv[1], {k: norm(S('any'), x) for k, x in mv[2].items()})
+    out = {}
+    for key, fsd in fields:
+      if key in mv[2]:
+        out[key] = norm(fsd, mv[2][key])
+      else:
+        assert fsd.default is not NODEF, key
+        out[key] = fsd.default
+    return ('O', mv[1], out)
+  k = sd.kind
+  if k == 'none':
+    return None if mv is None else norm(sd.args[0], mv)
+  if k == 'union':
+    # Unambiguous unions only: a member that takes the value as it is wins,
+    # otherwise exactly one member can convert it.
+    for x in sd.args:
+      if s_accepts_exactly(x, mv):
+        return norm(x, mv)
+    conv = [x for x in sd.args if not strict_eq(norm(x, mv), mv)]
+    assert len(conv) == 1, (s_src(sd), mv)
+    return norm(conv[0], mv)
+  if k == 'float':
+    return float(mv) if type(mv) is int else mv  # pylint: disable=unidiomatic-typecheck
+  if k == 'int':
+    if isinstance(mv, datetime.datetime):      # documented: UTC timestamp
+      return int((mv - datetime.datetime(1970, 1, 1)).total_seconds())
+    return mv
+  if k == 'datetime':
+    if type(mv) is int:  # pylint: disable=unidiomatic-typecheck
+      return datetime.datetime(1970, 1, 1) + datetime.timedelta(seconds=mv)
+    return mv
+  if k == 'keypath':
+    return pg.KeyPath.parse(mv) if isinstance(mv, str) else mv
+  if k == 'str':
+    return str(mv) if isinstance(mv, pg.KeyPath) else mv
+  if k in ('bool',):
+    return mv
+  if k == 'any':
+    if isinstance(mv, dict):
+      return {key: norm(sd, x) for key, x in mv.items()}
+    if isinstance(mv, list):
+      return [norm(sd, x) for x in mv]
+    return mv
+  if k == 'list':
+    assert isinstance(mv, list), mv
+    return [norm(sd.args[0], x) for x in mv]
+  if k == 'tuple':
+    assert isinstance(mv, tuple) and len(mv) == len(sd.args), mv
+    return tuple(norm(x, y) for x, y in zip(sd.args, mv))
+  if k == 'dict':
+    assert isinstance(mv, dict), mv
+    out = {}
+    for key, fsd in sd.args:
+      if key in mv:
+        out[key] = norm(fsd, mv[key])
+      else:
+        assert fsd.default is not NODEF, key
+        out[key] = fsd.default
+    assert set(mv) <= set(out), mv
+    return out
+  raise AssertionError(k)
+
+
+# Host classes: TH_<name>(v: <spec>, w: Int = 7), one per converting spec.
+HOSTS = {}
+CLS_FIELDS = {}
+
+
+def _host(name, sd):
+  cname = 'TH_' + name
+  cls = pg.members([('v', s_pg(sd)), ('w', pg.typing.Int(default=7))])(
+      type(cname, (pg.Object,), {'__module__': __name__}))
+  HOSTS[cname] = cls
+  CLS_FIELDS[cls] = [('v', sd), ('w', S('int', default=7))]
+  globals()[cname] = cls
+  return cls
+
+
+S_ANY = S('any')
+S_FLOAT = S('float')
+S_DFL = lambda e: S('dict', ('k', e), ('l', S('str', default='q')))  # pylint: disable=unnecessary-lambda-assignment
+
+# ---------------------------------------------------------------------------
 # Descriptor tree.
 # ---------------------------------------------------------------------------
 
@@ -93,11 +280,17 @@ def _n(x):
 
 
 def D(**kw):
-  return N('d', items=[(k, _n(v)) for k, v in kw.items()])
+  return N('d', items=[(k, _n(v)) for k, v in kw.items()], spec=None)
 
 
 def L(xs):
-  return N('l', items=[_n(x) for x in xs])
+  return N('l', items=[_n(x) for x in xs], spec=None)
+
+
+def with_spec(n, sd):
+  """Binds the value-spec descriptor `sd` (see S below) to a D / L node."""
+  n.spec = sd
+  return n
 
 
 def O(cls, **kw):
@@ -216,9 +409,11 @@ def build(n):
   if k == 'c':
     return n.v
   if k == 'd':
-    return pg.Dict({key: build(c) for key, c in n.items})
+    kw = {} if n.spec is None else {'value_spec': s_pg(n.spec)}
+    return pg.Dict({key: build(c) for key, c in n.items}, **kw)
   if k == 'l':
-    return pg.List([build(c) for c in n.items])
+    kw = {} if n.spec is None else {'value_spec': s_pg(n.spec)}
+    return pg.List([build(c) for c in n.items], **kw)
   if k == 'o':
     return n.cls(**{key: build(c) for key, c in n.items})
   if k == 'one':
@@ -240,11 +435,16 @@ def build(n):
 def src(n, root=True):
   k = n.kind
   if k == 'c':
-    return repr(n.v)
+    return lit(n.v)
   if k == 'd':
-    return 'pg.Dict(%s)' % ', '.join(f'{key}={src(c, False)}' for key, c in n.items)
+    args = [f'{key}={src(c, False)}' for key, c in n.items]
+    if n.spec is not None:
+      args.append(f'value_spec={s_src(n.spec)}')
+    return 'pg.Dict(%s)' % ', '.join(args)
   if k == 'l':
     body = '[%s]' % ', '.join(src(c, False) for c in n.items)
+    if n.spec is not None:
+      return f'pg.List({body}, value_spec={s_src(n.spec)})'
     return f'pg.List({body})' if root else body
   if k == 'o':
     return '%s(%s)' % (n.cls.__name__, ', '.join(
@@ -283,7 +483,13 @@ def where_fn(sel):
 def header(root):
   s = src(root)
   needs = any(t in s for t in ('A(', 'A2(', 'B(', 'IntSeq(', 'nt'))
-  return 'import pyglove as pg\n' + (IMPORT if needs else '')
+  out = 'import pyglove as pg\n'
+  if 'datetime.' in s:
+    out += 'import datetime\n'
+  if 'TH_' in s:
+    out += 'from bounded.c13_hyper import %s\n' % ', '.join(
+        sorted(set(re.findall(r'TH_\w+', s))))
+  return out + (IMPORT if needs else '')
 
 
 # ---------------------------------------------------------------------------
@@ -669,9 +875,18 @@ def same(mv, got, path='$'):
   # Leaf.
   if isinstance(got, (pg.hyper.HyperValue, pg.hyper.DerivedValue)):
     return f'{path}: placeholder left in decoded value: {got!r}'
-  if type(got) is not type(mv) or got != mv:  # pylint: disable=unidiomatic-typecheck
+  if not strict_eq(got, mv):
     return f'{path}: {got!r} != {mv!r}'
   return None
+
+
+def strict_eq(a, b):
+  """Equal and of the same Python type (also element-wise inside tuples)."""
+  if type(a) is not type(b):  # pylint: disable=unidiomatic-typecheck
+    return False
+  if isinstance(a, tuple):
+    return len(a) == len(b) and all(strict_eq(x, y) for x, y in zip(a, b))
+  return bool(a == b)
 
 
 def mv_key(mv):
@@ -686,6 +901,8 @@ def mv_key(mv):
   if isinstance(mv, tuple) and mv and mv[0] == 'H':
     return ('h', mv[1].name) + (
         tuple(mv_key(v) for v in mv[2]) if mv[2] is not None else ())
+  if isinstance(mv, tuple):
+    return ('t',) + tuple(mv_key(v) for v in mv)
   return (type(mv).__name__, mv)
 
 
@@ -702,6 +919,8 @@ def pg_key(v):
   if isinstance(v, pg.Object):
     items = [(k, pg_key(x)) for k, x in v.sym_items()]
     return ('o', type(v).__name__) + tuple(sorted(items))
+  if isinstance(v, tuple):
+    return ('t',) + tuple(pg_key(x) for x in v)
   return (type(v).__name__, v)
 
 
@@ -915,15 +1134,36 @@ def to_pg(mv):
   return mv
 
 
-def mv_src(mv, root=True):
+def to_plain(mv):
+  """Like to_pg, with built-in dict / list instead of pg.Dict / pg.List."""
   if isinstance(mv, dict):
+    return {k: to_plain(v) for k, v in mv.items()}
+  if isinstance(mv, list):
+    return [to_plain(v) for v in mv]
+  if isinstance(mv, tuple) and mv and mv[0] == 'O':
+    return mv[1](**{k: to_plain(v) for k, v in mv[2].items()})
+  return to_pg(mv)
+
+
+def mv_has_container(mv):
+  if isinstance(mv, (dict, list)):
+    return True
+  if isinstance(mv, tuple) and mv and mv[0] == 'O':
+    return any(mv_has_container(v) for v in mv[2].values())
+  return False
+
+
+def mv_src(mv, root=True, plain=False):
+  if isinstance(mv, dict):
+    if plain:
+      return 'dict(%s)' % ', '.join(f'{k}={mv_src(v, False, True)}' for k, v in mv.items())
     return 'pg.Dict(%s)' % ', '.join(f'{k}={mv_src(v, False)}' for k, v in mv.items())
   if isinstance(mv, list):
-    body = '[%s]' % ', '.join(mv_src(v, False) for v in mv)
-    return f'pg.List({body})' if root else body
+    body = '[%s]' % ', '.join(mv_src(v, False, plain) for v in mv)
+    return f'pg.List({body})' if root and not plain else body
   if isinstance(mv, tuple) and mv and mv[0] == 'O':
     return '%s(%s)' % (mv[1].__name__, ', '.join(
-        f'{k}={mv_src(v, False)}' for k, v in mv[2].items()))
+        f'{k}={mv_src(v, False, plain)}' for k, v in mv[2].items()))
   if isinstance(mv, tuple) and mv and mv[0] == 'H':
     n = mv[1]
     if n.kind == 'one':
@@ -934,7 +1174,7 @@ def mv_src(mv, root=True):
           n.k, ', '.join(mv_src(c, False) for c in mv[2]), n.distinct,
           n.sorted, n.name)
     return src(n, False)
-  return repr(mv)
+  return lit(mv)
 
 
 # ---------------------------------------------------------------------------
@@ -942,9 +1182,14 @@ def mv_src(mv, root=True):
 # ---------------------------------------------------------------------------
 
 
-def check_template(rec, root, sel, rnd, cap, deep_checks=6):
-  """Checks every clause of C13 on one template (+ optional where filter)."""
-  sig = signature(root, sel)
+def check_template(rec, root, sel, rnd, cap, deep_checks=6, post=None,
+                   sig=None):
+  """Checks every clause of C13 on one template (+ optional where filter).
+
+  post: model value -> model value prescribed after the bound value specs
+  accepted it (see `norm`); sig: input-class part of the case ids.
+  """
+  sig = sig or signature(root, sel)
   vsrc = src(root)
   pre = header(root) + f'v = {vsrc}\nt = pg.template(v{where_src(sel)})\n'
   key0 = (vsrc, None if sel is None else tuple(sorted(sel)))
@@ -1002,6 +1247,8 @@ def check_template(rec, root, sel, rnd, cap, deep_checks=6):
     deep = idx < deep_checks or idx == len(pairs) - 1
     if refs:
       mv = resolve_refs(_copy_mv(mv))
+    if post:
+      mv = post(mv)
     try:
       dna = to_dna(dn)
       before = pg.to_json_str(dna)
@@ -1082,8 +1329,12 @@ def check_template(rec, root, sel, rnd, cap, deep_checks=6):
     # encode(decode(dna)) and encode(independently built value)
     for label, val_fn, vs_ in (
         ('decoded', lambda: got, 't.decode(d)'),
-        ('built', lambda: to_pg(mv), mv_src(mv))):
+        ('built', lambda: to_pg(mv), mv_src(mv)),
+        # an equal value made of built-in dict / list containers.
+        ('plain', lambda: to_plain(mv), mv_src(mv, plain=True))):
       if label == 'built' and not deep and idx % 5:
+        continue
+      if label == 'plain' and not (deep and mv_has_container(mv)):
         continue
       try:
         val = val_fn()
@@ -1388,7 +1639,9 @@ def drv_decode_encode(tier, seed):
       'n<=4; floatv; custom; evolvable; conditional depth<=3) x 10 contexts '
       '(root/dict/list/object/siblings/ref) + typed-field objects + seeded '
       f'random templates; `where` subsets; all DNAs if <= {cap} else {cap} '
-      'random; floats at lo/mid/hi')
+      'random; floats at lo/mid/hi; encode of the decoded value, of an '
+      'independently built equal value, and of an equal value made of '
+      'built-in dict / list containers')
   rnd = rng(seed, 'c13-decode')
   for root, sel in all_templates(tier, seed):
     try:
@@ -1407,6 +1660,68 @@ def drv_decode_encode(tier, seed):
 
 def only_custom_infinite(root, sel):
   return not any(n.kind in ('f', 'ev') and is_sel(n, sel) for n in walk(root))
+
+
+def check_iter(rec, root, sel, total, seed, sample, post=None, sig=None):
+  """pg.iter over one finite template vs the model's enumeration."""
+  sig = sig or signature(root, sel)
+  vsrc = src(root)
+  key0 = (vsrc, None if sel is None else tuple(sorted(sel)))
+  pre = header(root) + f'v = {vsrc}\n'
+  wsrc = where_src(sel)
+  try:
+    v = build(root)
+    snap = Snapshot(v)
+    pairs = enum(root, sel)
+    refs = has_ref(root)
+    want = [resolve_refs(_copy_mv(mv)) if refs else mv for _, mv in pairs]
+    want = [mv_key(post(mv) if post else mv) for mv in want]
+    xs = list(pg.iter(v, where=where_fn(sel)))
+    got = [pg_key(x) for x in xs]
+  except Exception as e:  # pylint: disable=broad-except
+    rec.case(f'iter.run/{sig}', key0, False,
+             f'unexpected {type(e).__name__}: {str(e)[:300]}',
+             pre + f'list(pg.iter(v{wsrc}))')
+    return
+  rec.case(f'iter.count/{sig}', key0, len(xs) == total,
+           f'pg.iter yielded {len(xs)} values, space has {total}',
+           pre + f'assert len(list(pg.iter(v{wsrc}))) == {total}')
+  exact = msize(root, sel, exact=True)
+  if exact is not None:
+    sz = pg.dna_spec(v, where=where_fn(sel)).space_size
+    rec.case(f'iter.count-vs-space_size/{sig}', key0, len(xs) == sz,
+             f'pg.iter yielded {len(xs)} values, space_size is {sz}',
+             pre + f'assert len(list(pg.iter(v{wsrc}))) == pg.dna_spec(v{wsrc}).space_size')
+  rec.case(f'iter.values/{sig}', key0, set(got) == set(want),
+           f'values not in the space: {list(set(got) - set(want))[:2]}; '
+           f'missing: {list(set(want) - set(got))[:2]}',
+           pre + f'print(list(pg.iter(v{wsrc})))  # differs from the space of v')
+  if distinguishable(root, sel):
+    rec.case(f'iter.pairwise-different/{sig}', key0, len(set(got)) == len(got),
+             f'{len(got) - len(set(got))} repeated values',
+             pre + f'xs = list(pg.iter(v{wsrc}))\n'
+             'assert all(not pg.eq(a, b) for i, a in enumerate(xs) for b in xs[:i])')
+  df = snap.diff()
+  rec.case(f'iter.template-unchanged/{sig}', key0, df is None, df,
+           pre + f'j = pg.to_json_str(v); list(pg.iter(v{wsrc})); assert pg.to_json_str(v) == j')
+  for k in sorted({1, max(total - 1, 1), total + 2}):
+    try:
+      ys = list(pg.iter(v, k, where=where_fn(sel)))
+      ok = [pg_key(y) for y in ys] == got[:k]
+      msg = f'pg.iter(v, {k}) gave {len(ys)} values / other values than the first {k}'
+    except Exception as e:  # pylint: disable=broad-except
+      ok, msg = False, f'{type(e).__name__}: {e}'
+    rec.case(f'iter.num_examples/{sig}', key0 + (k,), ok, msg,
+             pre + f'assert len(list(pg.iter(v, {k}{wsrc}))) == {min(k, total)}')
+  if sample:
+    try:
+      zs = list(pg.random_sample(v, 6, where=where_fn(sel), seed=seed))
+      bad = [z for z in zs if pg_key(z) not in set(want)]
+      ok, msg = len(zs) == 6 and not bad, f'{len(zs)} samples; outside space: {bad[:1]}'
+    except Exception as e:  # pylint: disable=broad-except
+      ok, msg = False, f'{type(e).__name__}: {e}'
+    rec.case(f'random_sample.member/{sig}', key0, ok, msg,
+             pre + f'print(list(pg.random_sample(v, 6{wsrc}, seed={seed})))')
 
 
 def drv_iter(tier, seed):
@@ -1430,63 +1745,184 @@ def drv_iter(tier, seed):
     if unselected_below_selected_choice(root, sel) and has_ref(root):
       continue
     n_done += 1
-    sig = signature(root, sel)
-    vsrc = src(root)
-    key0 = (vsrc, None if sel is None else tuple(sorted(sel)))
-    pre = header(root) + f'v = {vsrc}\n'
-    wsrc = where_src(sel)
-    try:
-      v = build(root)
-      snap = Snapshot(v)
-      pairs = enum(root, sel)
-      refs = has_ref(root)
-      want = [mv_key(resolve_refs(_copy_mv(mv)) if refs else mv) for _, mv in pairs]
-      xs = list(pg.iter(v, where=where_fn(sel)))
-      got = [pg_key(x) for x in xs]
-    except Exception as e:  # pylint: disable=broad-except
-      rec.case(f'iter.run/{sig}', key0, False,
-               f'unexpected {type(e).__name__}: {str(e)[:300]}',
-               pre + f'list(pg.iter(v{wsrc}))')
-      continue
-    rec.case(f'iter.count/{sig}', key0, len(xs) == total,
-             f'pg.iter yielded {len(xs)} values, space has {total}',
-             pre + f'assert len(list(pg.iter(v{wsrc}))) == {total}')
-    exact = msize(root, sel, exact=True)
-    if exact is not None:
-      sz = pg.dna_spec(v, where=where_fn(sel)).space_size
-      rec.case(f'iter.count-vs-space_size/{sig}', key0, len(xs) == sz,
-               f'pg.iter yielded {len(xs)} values, space_size is {sz}',
-               pre + f'assert len(list(pg.iter(v{wsrc}))) == pg.dna_spec(v{wsrc}).space_size')
-    rec.case(f'iter.values/{sig}', key0, set(got) == set(want),
-             f'values not in the space: {list(set(got) - set(want))[:2]}; '
-             f'missing: {list(set(want) - set(got))[:2]}',
-             pre + f'print(list(pg.iter(v{wsrc})))  # differs from the space of v')
-    if distinguishable(root, sel):
-      rec.case(f'iter.pairwise-different/{sig}', key0, len(set(got)) == len(got),
-               f'{len(got) - len(set(got))} repeated values',
-               pre + f'xs = list(pg.iter(v{wsrc}))\n'
-               'assert all(not pg.eq(a, b) for i, a in enumerate(xs) for b in xs[:i])')
-    df = snap.diff()
-    rec.case(f'iter.template-unchanged/{sig}', key0, df is None, df,
-             pre + f'j = pg.to_json_str(v); list(pg.iter(v{wsrc})); assert pg.to_json_str(v) == j')
-    for k in sorted({1, max(total - 1, 1), total + 2}):
+    check_iter(rec, root, sel, total, seed, n_done % 3 == 0)
+  return rec.result()
+
+
+# ---------------------------------------------------------------------------
+# Driver 2b: placeholders bound to value specs that *normalise* the accepted
+# candidate (built-in converters, defaults of dict / object fields): the
+# decoded value is the normalised one, and encoding it gives back the DNA.
+# ---------------------------------------------------------------------------
+
+_KP = pg.KeyPath.parse
+_DT = datetime.datetime(2020, 1, 1)
+
+# (name, element spec, three pairwise different candidates, conversion class)
+TYPED_ELEMS = [
+    ('float', S_FLOAT, [1, 2, 3], 'int->float'),
+    ('float', S_FLOAT, [1, 2.5, -3], 'int->float'),
+    ('float', S_FLOAT, [0.5, 1.5, 2.5], 'no-conversion'),
+    ('nfloat', S('none', S_FLOAT), [1, None, 2.5], 'int->float'),
+    ('ufs', S('union', S_FLOAT, S('str')), [1, 'a', 2], 'int->float'),
+    ('usf', S('union', S('str'), S_FLOAT), ['a', 2, 3.5], 'int->float'),
+    ('keypath', S('keypath'), ['a.b', 'c', 'd[0]'], 'str->keypath'),
+    ('keypath', S('keypath'), ['a.b', _KP('c'), 'd[0]'], 'str->keypath'),
+    ('str', S('str'), [_KP('a.b'), 'c', _KP('d[0]')], 'keypath->str'),
+    ('datetime', S('datetime'), [0, 86400, _DT], 'int->datetime'),
+    ('int', S('int'), [_DT, 5, 6], 'datetime->int'),
+    ('any', S_ANY, [1, 2.5, 'x'], 'no-conversion'),
+    ('int', S('int'), [4, 5, 6], 'no-conversion'),
+]
+
+# Field spec built around the element spec E, by field kind.
+FIELD_KINDS = {
+    'e': lambda e: e,
+    'l': lambda e: S('list', e),
+    'd': S_DFL,
+    'ld': lambda e: S('list', S_DFL(e)),
+    't': lambda e: S('tuple', e, S('str')),
+}
+
+for _nm, _e in sorted({(x[0], x[1]) for x in TYPED_ELEMS}, key=lambda x: x[0]):
+  if 'TH_e_' + _nm not in HOSTS:
+    for _fk, _mk in FIELD_KINDS.items():
+      _host(f'{_fk}_{_nm}', _mk(_e))
+    _host(f'o_{_nm}', S('obj', HOSTS['TH_e_' + _nm]))
+    _host(f'lo_{_nm}', S('list', S('obj', HOSTS['TH_e_' + _nm])))
+
+
+def field_spec(fk, nm, e):
+  if fk == 'o':
+    return S('obj', HOSTS['TH_e_' + nm])
+  if fk == 'lo':
+    return S('list', S('obj', HOSTS['TH_e_' + nm]))
+  return FIELD_KINDS[fk](e)
+
+
+def typed_shapes(nm, cs):
+  """(shape class, field kind, factory of the placeholder subtree)."""
+  c0, c1, c2 = cs
+  E = HOSTS['TH_e_' + nm]
+  out = []
+  add = lambda c, fk, f: out.append((c, fk, f))
+  add('const-candidates', 'e', lambda: One(cs))
+  add('const-candidates', 'e', lambda: One([c2, c0]))
+  add('nested-oneof', 'e', lambda: One([c0, One([c1, c2])]))
+  add('nested-oneof', 'e', lambda: One([One([One([c1, c2])]), c0]))
+  for distinct in (True, False):
+    for srt in (False, True):
+      add('manyof', 'l', lambda d=distinct, s_=srt: Many(2, cs, d, s_))
+  add('manyof', 'l', lambda: Many(1, cs))
+  add('manyof', 'l', lambda: Many(3, cs))
+  add('manyof-nested', 'l', lambda: Many(2, [One([c0, c1]), c2], False, False))
+  add('const-list-candidates', 'l', lambda: One([L([c0]), L([c0, c1]), L([])]))
+  add('list-literal', 'l', lambda: L([One(cs), c0]))
+  add('nonconst-list-candidates', 'l',
+      lambda: One([L([One(cs)]), L([c0, One([c1, c2])])]))
+  add('const-dict-candidates+default', 'd', lambda: One([D(k=c0), D(k=c1, l='z')]))
+  add('dict-literal+default', 'd', lambda: D(k=One(cs)))
+  add('nonconst-dict-candidates+default', 'd',
+      lambda: One([D(k=One(cs)), D(k=c0, l=One(['y', 'z']))]))
+  add('manyof-dict-candidates+default', 'ld',
+      lambda: Many(2, [D(k=c0), D(k=c1, l='z'), D(k=One([c1, c2]))]))
+  add('const-tuple-candidates', 't', lambda: One([C((c0, 'a')), C((c1, 'b'))]))
+  add('const-object-candidates+default', 'o',
+      lambda: One([O(E, v=c0), O(E, v=c1, w=8)]))
+  add('nonconst-object-candidates+default', 'o',
+      lambda: One([O(E, v=One(cs), w=7), O(E, v=c0, w=One([8, 9]))]))
+  add('manyof-object-candidates+default', 'lo',
+      lambda: Many(2, [O(E, v=c0), O(E, v=c1, w=8), O(E, v=One([c1, c2]), w=9)],
+                   True, True))
+  if nm == 'float':
+    add('const-candidates-and-floatv', 'e', lambda: One([F(0.25, 0.75), c0, c2]))
+    add('const-candidates-and-floatv', 'l',
+        lambda: Many(2, [F(0.25, 0.75), c0, c2], False, False))
+  return out
+
+
+TYPED_HOSTS = [
+    # (name, placeholder subtree h, host class, field spec) -> root
+    ('object-field', lambda h, cls, fs: O(cls, v=h)),
+    ('dict-field', lambda h, cls, fs: with_spec(D(a=h), S('dict', ('a', fs)))),
+    ('list-element', lambda h, cls, fs: with_spec(L([h]), S('list', fs))),
+    ('object-in-candidate', lambda h, cls, fs: One([O(cls, v=h), 'z'])),
+    ('object-field+sibling', lambda h, cls, fs: O(cls, v=h, w=One([1, 2]))),
+]
+
+
+def _typed_root(nm, e, fk, mk, hi):
+  fs = field_spec(fk, nm, e)
+  cls = HOSTS[f'TH_{fk}_{nm}']
+  root = assign_names(TYPED_HOSTS[hi % len(TYPED_HOSTS)][1](mk(), cls, fs))
+  rsd = root.spec if root.kind in ('d', 'l') and root.spec else S_ANY
+  return root, (lambda mv, rsd=rsd: norm(rsd, mv))
+
+
+def typed_templates_conv(tier, seed):
+  """Yields (root, post, sig) of the value-spec normalisation catalogue.
+
+  quick: every element spec with constant oneof candidates in one host; every
+  placement with the int->float element and with one other element (rotating
+  with the seed), each in one host (rotating).  thorough: every element x
+  every placement in two hosts, constant candidates in all hosts.
+  """
+  quick = tier == 'quick'
+  nh = len(TYPED_HOSTS)
+  # Converters whose result is not == their input are one input class of their
+  # own, checked on a fixed small set of placements.
+  uneq = [x for x in TYPED_ELEMS if 'datetime' in x[3]]
+  elems = [x for x in TYPED_ELEMS if x not in uneq]
+  for nm, e, cs, conv in uneq:
+    shapes = typed_shapes(nm, cs)
+    for si, hi in ((0, 0), (0, 1), (4, 1)):
+      _, fk, mk = shapes[si]
+      root, post = _typed_root(nm, e, fk, mk, hi)
+      yield root, post, 'typed[int<->datetime]'
+  for ei, (nm, e, cs, conv) in enumerate(elems):
+    shapes = typed_shapes(nm, cs)
+    for si, (shape, fk, mk) in enumerate(shapes):
+      if not quick:
+        his = range(nh) if si == 0 else [(ei + si + seed) % nh, (ei + si + seed + 2) % nh]
+      elif si == 0 or ei == 0 or ei == 1 + (si + seed) % (len(elems) - 1):
+        his = [(ei + si + seed) % nh]
+      else:
+        continue
+      for hi in his:
+        root, post = _typed_root(nm, e, fk, mk, hi)
+        yield root, post, f'typed[{conv}].{shape}'
+
+
+def drv_typed_roundtrip(tier, seed):
+  cap = 7 if tier == 'quick' else 30
+  rec = Recorder(
+      'C13', 'decode/encode/iter of placeholders bound to value specs that '
+      'normalise their candidates (vs reference model of the spec)',
+      scope='element specs Float / noneable Float / Union(Float,Str) / '
+      'Object(KeyPath) / Str / Object(datetime) / Int / Any with candidates '
+      'needing the built-in converters int->float, str<->KeyPath, '
+      'int<->datetime (and controls without conversion) x 24 placements '
+      '(constant / nested / non-constant candidates of oneof; manyof 4 modes; '
+      'list, dict(+default), tuple, object(+default) candidates and literals) '
+      'x 5 hosts (object field, pg.Dict / pg.List value_spec, object inside a '
+      f'candidate, with sibling); all DNAs if <= {cap} else {cap} random; '
+      'quick: one host per placement')
+  rnd = rng(seed, 'c13-typed')
+  with warnings.catch_warnings():
+    warnings.simplefilter('ignore')
+    for n, (root, post, sig) in enumerate(typed_templates_conv(tier, seed)):
       try:
-        ys = list(pg.iter(v, k, where=where_fn(sel)))
-        ok = [pg_key(y) for y in ys] == got[:k]
-        msg = f'pg.iter(v, {k}) gave {len(ys)} values / other values than the first {k}'
+        check_template(rec, root, None, rnd, cap,
+                       deep_checks=2 if tier == 'quick' else 4, post=post,
+                       sig=sig)
+        total = msize(root, None)
+        if (tier != 'quick' or n % 3 == 0) and total <= 40 and (
+            only_custom_infinite(root, None)):
+          check_iter(rec, root, None, total, seed, n % 6 == 0, post=post,
+                     sig=sig)
       except Exception as e:  # pylint: disable=broad-except
-        ok, msg = False, f'{type(e).__name__}: {e}'
-      rec.case(f'iter.num_examples/{sig}', key0 + (k,), ok, msg,
-               pre + f'assert len(list(pg.iter(v, {k}{wsrc}))) == {min(k, total)}')
-    if n_done % 3 == 0:
-      try:
-        zs = list(pg.random_sample(v, 6, where=where_fn(sel), seed=seed))
-        bad = [z for z in zs if pg_key(z) not in set(want)]
-        ok, msg = len(zs) == 6 and not bad, f'{len(zs)} samples; outside space: {bad[:1]}'
-      except Exception as e:  # pylint: disable=broad-except
-        ok, msg = False, f'{type(e).__name__}: {e}'
-      rec.case(f'random_sample.member/{sig}', key0, ok, msg,
-               pre + f'print(list(pg.random_sample(v, 6{wsrc}, seed={seed})))')
+        rec.case('harness/' + sig, src(root), False,
+                 f'harness error {type(e).__name__}: {e}', src(root))
   return rec.result()
 
 
@@ -1800,7 +2236,8 @@ def drv_decode_invalid(tier, seed):
   return rec.result()
 
 
-DRIVERS = [drv_decode_encode, drv_iter, drv_binding, drv_decode_invalid]
+DRIVERS = [drv_decode_encode, drv_iter, drv_typed_roundtrip, drv_binding,
+           drv_decode_invalid]
 
 
 def replay(rec):
